@@ -11,7 +11,7 @@ NOT decided.  (DESIGN.md section 9.7.)
 from __future__ import annotations
 
 import ast
-from typing import Optional,  List, Set
+from typing import Dict, Tuple,  Optional,  List, Set
 
 from ..cfg import enumerate_paths, RETURN
 from ..index import (AnalysisError, FuncInfo, ProgramIndex, body_without_docstring, calls_in, chain, norm, src)
@@ -301,3 +301,133 @@ def run(idx: ProgramIndex, rep: Report, tier: str):
         if not (kw.get("left_interp_indices", "").startswith(fwd.params[1]) and kw.get("right_interp_indices", "").startswith(fwd.params[2])):
             probs.append("rows are not indexed by i1 and columns by i2")
     rep.add("C09-2", "%s:IndexKernel" % IK.module.name, dense.where, not probs, "B B^T + diag(var) (dense) and Root(B) + Diag(var) (operator); rows i1, columns i2" if not probs else "; ".join(sorted(set(probs))), {})
+    grid_enumeration(idx, rep)
+
+
+# ---- C09-5: one enumeration order of the grid points for every producer and consumer ---------------------------------------
+def grid_enumeration(idx: ProgramIndex, rep: Report):
+    """The d-dimensional grid is flattened in four places: the list of grid points (create_data_from_grid), the Kronecker product
+    K_UU of the per-dimension covariances (GridKernel.forward), the flat indices produced by cubic interpolation
+    (Interpolation.interpolate) and the inducing points of GridInterpolationVariationalStrategy.  They must agree on which
+    dimension varies fastest; otherwise W K_UU W^T pairs interpolation weights with the covariance of other grid points whenever
+    the dimensions differ (grid size, bounds, ARD lengthscale) - invisible for identical dimensions."""
+    rep.rule("C09-5", "grid points are enumerated in one order (which dimension varies fastest) by the grid, the Kronecker K_UU, the interpolation indices and the variational inducing points")
+    found: Dict[str, Tuple[str, str]] = {}
+
+    # (1) Interpolation.interpolate: stride of dimension i
+    I = idx.find_class("Interpolation")
+    it = idx.method(I, "interpolate", own=True)
+    for loop in [n for n in ast.walk(it.node) if isinstance(n, ast.For)]:
+        iv = loop.target.id if isinstance(loop.target, ast.Name) else None
+        for a in ast.walk(loop):
+            if isinstance(a, ast.Assign) and isinstance(a.value, ast.Call) and chain(a.value.func) in ("reduce", "functools.reduce") and len(a.value.args) >= 2 and isinstance(a.value.args[1], ast.Subscript) and isinstance(a.value.args[1].slice, ast.Slice):
+                sl = a.value.args[1].slice
+                coeff = a.targets[0].id if isinstance(a.targets[0], ast.Name) else None
+                used = any(isinstance(c, ast.Call) and isinstance(c.func, ast.Attribute) and c.func.attr in ("mul", "mul_") and c.args and src(c.args[0]) == coeff for c in ast.walk(loop))
+                if not used:
+                    continue
+                if sl.lower is None and sl.upper is not None and src(sl.upper) == iv:
+                    found["interpolation indices"] = ("FIRST", "%s:%d" % (it.module.relpath, a.lineno))
+                elif sl.upper is None and sl.lower is not None and src(sl.lower).replace(" ", "") == "%s+1" % iv:
+                    found["interpolation indices"] = ("LAST", "%s:%d" % (it.module.relpath, a.lineno))
+    # (2) GridKernel.forward: operand order of the Kronecker product (A (x) B: the LAST operand varies fastest), per mode
+    G = idx.find_class("GridKernel")
+    gf = idx.method(G, "forward", own=True)
+
+    def order_of(v: ast.AST, depth: int = 0):
+        """-> {interpolation_mode: 'FIRST'|'LAST'|'?'} for the sequence expression handed (starred) to the Kronecker product"""
+        if isinstance(v, ast.Subscript) and isinstance(v.slice, ast.Slice) and v.slice.step is not None and src(v.slice.step) == "-1" and v.slice.lower is None and v.slice.upper is None:
+            return {True: "FIRST", False: "FIRST"}  # reversed list: dimension 0 is the last operand
+        if isinstance(v, ast.Name):
+            return {True: "LAST", False: "LAST"}
+        if isinstance(v, ast.IfExp) and chain(v.test) == "self.interpolation_mode":
+            a_, b_ = order_of(v.body, depth + 1), order_of(v.orelse, depth + 1)
+            return {True: a_[True], False: b_[False]}
+        if isinstance(v, ast.Call) and isinstance(v.func, ast.Attribute) and chain(v.func.value) == "self" and depth < 2:
+            h = G.lookup(v.func.attr)
+            if h is not None:
+                rets = [r.value for r in ast.walk(h.node) if isinstance(r, ast.Return) and r.value is not None]
+                outs = [order_of(r, depth + 1) for r in rets]
+                if len(outs) == 1:
+                    return outs[0]
+        return {True: "?", False: "?"}
+
+    per_mode = {True: set(), False: set()}
+    where2 = gf.where
+    for c in calls_in(gf.node):
+        if (chain(c.func) or "").split(".")[-1] == "KroneckerProductLinearOperator" and len(c.args) == 1 and isinstance(c.args[0], ast.Starred):
+            where2 = "%s:%d" % (gf.module.relpath, c.lineno)
+            o = order_of(c.args[0].value)
+            per_mode[True].add(o[True])
+            per_mode[False].add(o[False])
+    kron = {}
+    for mode in (True, False):
+        if len(per_mode[mode]) == 1 and "?" not in per_mode[mode]:
+            kron[mode] = next(iter(per_mode[mode]))
+        elif per_mode[mode]:
+            kron[mode] = "MIXED" if "?" not in per_mode[mode] else None
+    if kron.get(True):
+        found["Kronecker K_UU (interpolation mode)"] = (kron[True], where2)
+    if kron.get(False):
+        found["Kronecker K_UU (explicit grid)"] = (kron[False], where2)
+    # (3) create_data_from_grid
+    gm = idx.module(idx.package + ".utils.grid")
+    cd = gm.functions.get("create_data_from_grid")
+    if cd is not None:
+        t = None
+        for c in calls_in(cd.node):
+            if isinstance(c.func, ast.Attribute) and c.func.attr == "reshape":
+                recv = c.func.value
+                if isinstance(recv, ast.Call) and isinstance(recv.func, ast.Attribute) and recv.func.attr == "permute" and "reversed" in src(recv):
+                    t = "FIRST"  # axes reversed before the row-major flattening: axis 0 ends up last, i.e. fastest
+                elif [src(a) for a in c.args][:1] == ["-1"]:
+                    t = t or "LAST"
+        if t:
+            found["grid points"] = (t, cd.where)
+    # (4) GridInterpolationVariationalStrategy.__init__: stride grid_size ** i
+    V = idx.find_class("GridInterpolationVariationalStrategy")
+    vi = idx.method(V, "__init__", own=True)
+    for c in calls_in(vi.node):
+        if chain(c.func) == "torch.cartesian_prod":
+            # cartesian_prod(g_0, ..., g_{d-1}) enumerates with the last factor varying fastest; reversed arguments flip that
+            rev = any(isinstance(a, ast.Starred) and ("[::-1]" in src(a.value) or "reversed" in src(a.value)) for a in c.args)
+            found["variational inducing points"] = ("FIRST" if rev else "LAST", "%s:%d" % (vi.module.relpath, c.lineno))
+    for sub in ast.walk(vi.node):
+        # inducing_points[<lo> : <hi>, <dim>] = ...: the block of rows that shares one coordinate value in dimension <dim>
+        if isinstance(sub, ast.Subscript) and isinstance(sub.slice, ast.Tuple) and len(sub.slice.elts) == 2 and isinstance(sub.slice.elts[0], ast.Slice) and isinstance(sub.slice.elts[1], ast.Name):
+            dimv = sub.slice.elts[1].id
+            lo = sub.slice.elts[0].lower
+            if lo is not None:
+                pw = [x for x in ast.walk(lo) if isinstance(x, ast.BinOp) and isinstance(x.op, ast.Pow)]
+                if pw and src(pw[0].right) == dimv:
+                    found["variational inducing points"] = ("FIRST", "%s:%d" % (vi.module.relpath, sub.lineno))  # stride g**dim
+                elif pw:
+                    found["variational inducing points"] = ("LAST", "%s:%d" % (vi.module.relpath, sub.lineno))
+    groups = {
+        "the flat indices of cubic interpolation": ["Kronecker K_UU (interpolation mode)", "interpolation indices", "variational inducing points"],
+        "the explicit list of grid points": ["Kronecker K_UU (explicit grid)", "grid points"],
+    }
+    for what in [w for g in groups.values() for w in g]:
+        if what not in found:
+            rep.observe("C09-5", "gpytorch:<grid enumeration>[%s]" % what, "gpytorch/", "enumeration order of the %s not recognised (not decided)" % what)
+    if len(found) < 4:
+        raise AnalysisError("C09-5: fewer than four of the five grid enumerations were recognised (%s)" % sorted(found))
+    for gname, members in groups.items():
+        present = [m for m in members if m in found]
+        if not present:
+            continue
+        # the member that deviates from the majority is reported (ties: the Kronecker product is the reference)
+        votes: Dict[str, int] = {}
+        for m_ in present:
+            votes[found[m_][0]] = votes.get(found[m_][0], 0) + 1
+        best = max(votes.values())
+        winners = [k_ for k_, v_ in votes.items() if v_ == best]
+        ref = found[present[0]][0] if found[present[0]][0] in winners else winners[0]
+        ref_name = next(m_ for m_ in present if found[m_][0] == ref)
+        for what in present:
+            kind, where = found[what]
+            ok = kind == ref
+            rep.add("C09-5", "gpytorch:<grid enumeration>[%s]" % what, where, ok,
+                    "dimension 0 varies %s, consistently within the group indexed by %s" % ("fastest" if kind == "FIRST" else "slowest", gname) if ok else
+                    "the %s enumerate the grid with dimension 0 varying %s, but the %s with dimension 0 varying %s (both are indexed by %s): for dimensions that differ (grid size, bounds, ARD lengthscale) interpolation weights / grid points are paired with the covariance of other grid points" % (
+                        what, {"FIRST": "fastest", "LAST": "slowest"}.get(kind, kind), ref_name, {"FIRST": "fastest", "LAST": "slowest"}.get(ref, ref), gname), {"order": kind})
